@@ -470,7 +470,7 @@ def valid_field(vc, name, value):
         return len(name) > 0 and b":" not in name and name[:1] not in (b" ", b"\t") and (value == b"" or (value[:1] not in [bytes([c]) for c in ws] and value[-1:] not in [bytes([c]) for c in ws]))
     import z3
     from pyvc.libx_httpmodel import is_ws_free_ends
-    return And(len_(name) > 0, Not(contains(name, b":")), code_at(name, 0) != 0x20, code_at(name, 0) != 0x09, SBool(is_ws_free_ends(value.t)))
+    return And(len_(name) > 0, Not(contains(name, b":")), code_at(name, 0) != 0x20, code_at(name, 0) != 0x09, ws_free_ends(vc, value))
 
 
 RT_FIELDS = [(b"Host", b"example.com"), (b"a", b""), (b"x-Y", b"a: b\tc")]
@@ -516,6 +516,71 @@ def _mk_roundtrip(n):
 
 for _n in range(4):
     _mk_roundtrip(_n)
+
+
+def ws_free_ends(vc, v):
+    ws = b" \t\n\r\x0b\x0c"
+    if vc.mode == "native" or isinstance(v, bytes):
+        return v == b"" or (v[:1] not in [bytes([c]) for c in ws] and v[-1:] not in [bytes([c]) for c in ws])
+    from pyvc.libx_httpmodel import is_ws_free_ends
+    return SBool(is_ws_free_ends(v.t))
+
+
+def _mk_folded(k, shape):
+    @scenario(f"read_headers.folded[continuations={k};{shape}]", functions=["mitmproxy.net.http.http1.read:_read_headers", H + ".__init__", H + ".__bytes__", MD + ".__eq__"],
+              strip_lemmas=True, z3_timeout_ms=700)
+    def s_folded(vc):
+        """a value that was read from k continuation lines (obs-fold, kept by mitmproxy as CRLF SP inside the value) serialises to the
+        first line plus k continuation lines and parses back to the same value: every continuation is kept, in order"""
+        concrete = k <= 2 and vc.case("pieces", ["concrete", "symbolic"]) == "concrete"
+        names, vals, lines = [], [], []
+        for i, part in enumerate(shape.split(",")):
+            nm = vc.sym_bytes(f"n{i}")
+            if part == "plain":
+                v = vc.sym_bytes(f"v{i}")
+                vc.assume(valid_field(vc, nm, v))
+                names.append(nm); vals.append(v); lines.append(nm + b": " + v)
+                continue
+            if concrete:
+                pieces = [[b"one", b"two", b"three", b"four"][j] for j in range(k + 1)]
+            else:
+                pieces = [vc.sym_bytes(f"piece{j}") for j in range(k + 1)]
+            vc.assume(valid_field(vc, nm, pieces[0]))
+            for pc_ in pieces[1:]:
+                vc.assume(ws_free_ends(vc, pc_))
+            value = pieces[0]
+            lines.append(nm + b": " + pieces[0])
+            for pc_ in pieces[1:]:
+                value = value + b"\r\n " + pc_
+                lines.append(b" " + pc_)
+            names.append(nm); vals.append(value)
+        n = len(names)
+        h = vc.new(H, fields=tuple(zip(names, vals)))
+        ser = vc.call(H + ".__bytes__", h)
+        vc.ensure("serialise.ok", ser.ok)
+        if not ser.ok:
+            return
+        vc.ensure("serialise.lines", ser.result == concat_all([l + b"\r\n" for l in lines]))
+        li = 0
+        for i in range(n):
+            cut(vc, f"lemma.first_colon[{i}]", index_of(vc, lines[li], b":") == len_(names[i]))
+            li += 1 + (k if shape.split(",")[i] == "folded" else 0)
+        out = vc.call("mitmproxy.net.http.http1.read:_read_headers", vc.list(lines))
+        vc.ensure("parse.no_exception", out.ok)
+        if not out.ok:
+            return
+        got = fields_of(vc, out.result)
+        vc.ensure("parse.count", len(got) == n)
+        for i in range(min(n, len(got))):
+            vc.ensure(f"parse.name[{i}]", items_of(got[i])[0] == names[i])
+            vc.ensure(f"parse.value_keeps_every_continuation[{i}]", items_of(got[i])[1] == vals[i])
+        vc.ensure("parse.equals_original", vc.eq(out.result, h))
+
+    return s_folded
+
+
+for _k, _shape in ((1, "folded,plain"), (2, "folded"), (2, "plain,folded"), (3, "folded")):
+    _mk_folded(_k, _shape)
 
 
 # =================================================================================================================
@@ -722,8 +787,11 @@ def _roundtrips(b, tier, seed):
 
     names = [b"a", b"A", b"Host", b"x-y_z.1", b"!#$%&'*+-.^_`|~", b"Set-Cookie"]
     values = [b"", b"v", b"a b", b"a\tb", b"a:b", b":", b"a, b", b"\xc3\xa9", b"\xff\x80", b"x" * 70, b"a  b", b"\"q\"", b"a;b=c"]
+    # values read from continuation lines (obs-fold, kept as CRLF SP): one, two and three continuations
+    folded = [b"one\r\n two", b"one\r\n two\r\n three", b"a\r\n b\r\n c\r\n d", b"\r\n x\r\n y"]
     if tier == "quick":
         names, values = names[:5], values[:10]
+    values = values + folded
     fields = list(itertools.product(names, values))
     lists = [()] + [(f,) for f in fields] + list(itertools.product(fields, repeat=2))
     if tier == "thorough":
